@@ -257,6 +257,14 @@ def pos_class(tm, r: int, c: int) -> str:
     return "body"
 
 
+def _stroke_row(tm, r: int) -> bool:
+    return any(k[0] in (r, r + 1) for k in tm.hedge)
+
+
+def _stroke_col(tm, c: int) -> bool:
+    return any(k[1] in (c, c + 1) for k in tm.vedge)
+
+
 @op("observe")
 def op_observe(sim: Sim, a) -> str:
     """A read-only accessor call: scheduled, logged, and checked against the model where it has an opinion."""
@@ -291,13 +299,13 @@ def op_observe(sim: Sim, a) -> str:
         for r in sorted({r for r, _ in cells}):
             h = table.row_height(r)
             want = tm.row_h.get(r)
-            if "geom" in sim.aspects and want is not None and h != want and not tm.__dict__.get("row_h_unknown", {}).get(r):
+            if "geom" in sim.aspects and want is not None and h != want and not _stroke_row(tm, r):
                 sim.violation("C16.set_values_now", {"what": "row_height"}, f"{where}: row_height({r}) = {h}, was set to {want}")
     elif kind == "col_width":
         for c in sorted({c for _, c in cells}):
             w = table.col_width(c)
             want = tm.col_w.get(c)
-            if "geom" in sim.aspects and want is not None and w != want:
+            if "geom" in sim.aspects and want is not None and w != want and not _stroke_col(tm, c):
                 sim.violation("C16.set_values_now", {"what": "col_width"}, f"{where}: col_width({c}) = {w}, was set to {want}")
     elif kind == "size":
         _ = table.height
@@ -417,6 +425,11 @@ def apply_observers(sim: Sim, doc, observers) -> None:
         sim.probe("twin_observe_" + kind)
 
 
+def _diff_kind(diff) -> str:
+    kinds = sorted({str(k[1]) if isinstance(k, tuple) and len(k) == 2 and isinstance(k[1], str) else "other" for k, _a, _b in diff})
+    return ",".join(kinds)
+
+
 @op("twin_resave")
 def op_twin_resave(sim: Sim, a) -> str:
     """
@@ -462,11 +475,25 @@ def op_twin_resave(sim: Sim, a) -> str:
                 finally:
                     w.end_save()
             da, db = Document(pa), Document(pb)
-            sa, sb = snap_fn(da), snap_fn(db)
+            # snapshots are read from separate probe instances: da/db stay as (un)queried as the schedule says
+            sa, sb = snap_fn(Document(pa)), snap_fn(Document(pb))
             if sa != sb:
                 diff = [(k, sa.get(k), sb.get(k)) for k in sorted(set(sa) | set(sb), key=str) if sa.get(k) != sb.get(k)][:3]
                 sim.violation(check_id, {"what": "reload_differs", "kinds": sorted({o["kind"] for o in a["observers"]})},
                               f"{a['name']} cycle {cyc + 1}: the twin that was read ({[o['kind'] for o in a['observers']]}) reloads differently from the twin that was not: (key, observed, unobserved) {diff}")
+            if a.get("vs_source"):
+                if cyc == 0:
+                    s0 = snap_fn(Document(src))
+                    prev = s0
+                if sb != s0 and cyc == 0:
+                    diff = [(k, s0.get(k), sb.get(k)) for k in sorted(set(s0) | set(sb), key=str) if s0.get(k) != sb.get(k)][:3]
+                    sim.violation("C16.source_values_survive", {"what": _diff_kind(diff)},
+                                  f"{a['name']}: a plain open/save (nothing queried) changes what is reported: (key, source, reloaded) {diff}")
+                if sb != prev:
+                    diff = [(k, prev.get(k), sb.get(k)) for k in sorted(set(prev) | set(sb), key=str) if prev.get(k) != sb.get(k)][:3]
+                    sim.violation("C16.no_drift", {"what": _diff_kind(diff)},
+                                  f"{a['name']} cycle {cyc + 1} differs from cycle {cyc}: (key, before, after) {diff}")
+                prev = sb
             sim.stats["cells_compared"] += len(sa)
     sim.log.append([sim.step_no, "twin_resave", a["name"], w.tree_digest(pa), w.tree_digest(pb)])
     return "ok"
